@@ -160,8 +160,13 @@ impl<'a> Model<'a> {
                     }
                 },
                 Item::IncFn { kind, spelling, start, len, via } => {
+                    let needs_defs = !matches!(via, Via::Direct);
+                    if needs_defs && !self.case.defs_path.as_ref().map(|d| self.expansions.contains_key(d)).unwrap_or(false) {
+                        return Err(Stop::Unspecified("definitions file not included before use".to_string()));
+                    }
                     let container = match via {
-                        Via::Direct => path.to_string(),
+                        // the path string stands in the file itself
+                        Via::Direct | Via::Arg | Via::NestedArg => path.to_string(),
                         _ => match &self.case.defs_path {
                             Some(d) if self.expansions.contains_key(d) => d.clone(),
                             _ => return Err(Stop::Unspecified("definitions file not included before use".to_string())),
